@@ -5,6 +5,7 @@ import (
 	"crypto/tls"
 	"errors"
 	"fmt"
+	"github.com/jackc/pgx/v5/pgtype"
 	"log/slog"
 	"os"
 	"runtime"
@@ -76,6 +77,13 @@ func init() {
 	wire.VerifYield = hookYield
 	wire.VerifLock = hookLock
 }
+
+// timeoutError is what a middleware that waited for something returns.
+type timeoutError struct{ msg string }
+
+func (e timeoutError) Error() string   { return e.msg }
+func (e timeoutError) Timeout() bool   { return true }
+func (e timeoutError) Temporary() bool { return true }
 
 type discardHandler struct{}
 
@@ -376,6 +384,16 @@ func (rt *Runtime) buildServer() (*wire.Server, error) {
 	if cfg.Version != "" {
 		opts = append(opts, wire.Version(cfg.Version))
 	}
+	if cfg.CloseHook {
+		opts = append(opts, wire.CloseConn(func(ctx context.Context) error {
+			c := rt.connOf(ctx)
+			c.rec("closeconn", "")
+			return nil
+		}))
+	}
+	for i := 0; i < cfg.ExtendTypes; i++ {
+		opts = append(opts, wire.ExtendTypes(func(*pgtype.Map) {}))
+	}
 	if cfg.UserCaches {
 		opts = append(opts, wire.Statements(func() wire.StatementCache { return &userStatements{&wire.DefaultStatementCache{}} }),
 			wire.Portals(func() wire.PortalCache { return &userPortals{&wire.DefaultPortalCache{}} }))
@@ -418,6 +436,9 @@ func (rt *Runtime) buildServer() (*wire.Server, error) {
 			c.rec("mw", fmt.Sprintf("%d sees=[%s] fail=%v", i, strings.Join(seen, ","), mw.Fail))
 			rt.inspectCtx(c, ctx, "mw")
 			if mw.Fail {
+				if mw.Transient {
+					return ctx, timeoutError{fmt.Sprintf("middleware %d timed out", i)}
+				}
 				return ctx, fmt.Errorf("middleware %d refuses", i)
 			}
 			ctx = context.WithValue(ctx, mwKey(i), i+1)
